@@ -75,12 +75,12 @@ def satisfiable(F):
     cls = as_clauses(F)
     if cls is None:
         return None
-    if _BOUNDED['on']:
-        try:
-            return sat.solve(n, cls, max_nodes=3000) is not None
-        except sat.Budget:
-            return None         # undecided within the node budget: only the axioms are compared
-    return sat.is_sat(n, cls)
+    try:
+        # a node budget, not a clock: 3000 nodes for the large instances, 40000 otherwise (a refutation that needs more
+        # is reported as undecided; the axioms are compared in any case)
+        return sat.solve(n, cls, max_nodes=3000 if _BOUNDED['on'] else 40000) is not None
+    except sat.Budget:
+        return None
 
 
 def model_count(F):
@@ -200,8 +200,8 @@ def _op_variants():
     for total, smart in ((False, False), (True, False), (False, True), (True, True)):
         for plant in (False, True):
             for knuth in (0, 2, 3, 1, 4, None):          # 'anything else suppresses it': 1, 4 and None are the plain formula
-                if smart and knuth:
-                    continue
+                if smart and knuth not in (0, 2, 3):
+                    continue                          # (the compact version has its own transitivity axioms: knuth 2/3 change nothing there)
                 yield total, smart, plant, knuth
 
 
@@ -743,7 +743,7 @@ NT = "non-trivial: >=2 variables and >=1 clause; distinct by parameters/edge lis
 
 SUBCHECKS = [
     SubCheck('op', run_op, enumerate_cases=enum_op, strategy=strat_op, quick=150, thorough=6000,
-             rule="OrderingPrinciple N<=5 (thorough 6) and GraphOrderingPrinciple on every graph with 1..4 vertices (Hypothesis: 5) x {partial,total,smart} x plant x knuth{0,2,3 and 1,4,None which the documentation declares equal to 0}; oracle: clause set == reference axioms by name, unsatisfiable (tt/DPLL), planted: satisfiable iff a linear order with only vertex n as local minimum exists (brute force); " + NT,
+             rule="OrderingPrinciple N<=5 (thorough 6) and GraphOrderingPrinciple on every graph with 1..4 vertices (Hypothesis: 5) x {partial,total,smart} x plant x knuth{0,2,3 and 1,4,None which the documentation declares equal to 0; smart combined with knuth 2/3, where the compact transitivity axioms must stay}; oracle: clause set == reference axioms by name, unsatisfiable (tt/DPLL), planted: satisfiable iff a linear order with only vertex n as local minimum exists (brute force); " + NT,
              required_labels=['unsat', 'planted-sat', 'planted-unsat', 'knuth2', 'knuth3', 'knuthother', 'smart', 'total', 'partial', 'graph', 'complete', 'axioms-compared']),
     SubCheck('peb', run_peb, enumerate_cases=enum_peb, strategy=strat_peb, quick=150, thorough=5000,
              rule="PebblingFormula on every topologically sorted DAG <=5 (thorough 6) vertices, Hypothesis DAGs <=12 vertices, and every non-DAG on <=3 vertices (must raise ValueError); oracle: clause set == reference axioms, unsatisfiable; " + NT,
